@@ -36,7 +36,7 @@ def cli_args(target, settings):
 
 
 def cli_exec(root, target_rel, settings, cwd_rel="cwd", order_key=None, faults=(), crash_io=None,
-             tty=False, no_color=False, argform="abs", tmpdir_abs=None):
+             tty=False, no_color=False, argform="abs", tmpdir_abs=None, in_thread=False, stderr_none=False):
     """Run the real click command against the sandbox `root`.
 
     target_rel: path of the file/dir argument relative to root (None = no argument: default ".").
@@ -81,7 +81,10 @@ def cli_exec(root, target_rel, settings, cwd_rel="cwd", order_key=None, faults=(
     seams.patch_dir_listing(order_key)
     sys.stdout, sys.stderr = out, err
     audit = seams.audit_start(root)
-    try:
+    if stderr_none:
+        sys.stderr = None  # what Python does when fd 2 is closed at start-up (cm-colors dir 2>&-, some daemon launchers)
+
+    def invoke():
         try:
             rv = M.main.main(args=args, prog_name="cm-colors", standalone_mode=False)
             res["exit"] = 0 if rv in (None, 0) else rv
@@ -103,6 +106,17 @@ def cli_exec(root, target_rel, settings, cwd_rel="cwd", order_key=None, faults=(
         except Exception as e:  # an escaped exception = non-zero exit + traceback in real life
             res["exit"] = "raised"
             res["exc"] = "".join(traceback.format_exception(type(e), e, e.__traceback__)[-3:])
+
+    try:
+        if in_thread:
+            # the command called from a thread that is not the main thread (a job runner, a web handler, a GUI worker)
+            import threading
+
+            th = threading.Thread(target=invoke, name="cli-caller")
+            th.start()
+            th.join()
+        else:
+            invoke()
     finally:
         seams.audit_stop()
         sys.stdout, sys.stderr = saved[4], saved[5]
